@@ -55,13 +55,13 @@ Print Assumptions C20_all_raw_in_tree.
    document's other blocks are rendered as without the directive: same registries, same nodes,
    one refusal node where each include stood, no file-system event at all. *)
 Theorem C20_include_refuses_before_io :
-  (forall st name arg resolve fs,
+  (forall st name arg resolve resolve_std fs,      (* every argument, <standard> spelling included *)
       file_insertion_enabled st = false ->
-      include_run_prefix st name arg resolve fs = (RError 2 name, []))
+      include_run_prefix st name arg resolve resolve_std fs = (RError 2 name, []))
   /\ (include_check_index = 0%nat /\ include_fs_before_check = 0%nat /\ include_check_level = 2)
-  /\ (forall (regs : Type) render_other render_text resolve fs st bs (r : regs),
+  /\ (forall (regs : Type) render_other render_text resolve resolve_std fs st bs (r : regs),
         file_insertion_enabled st = false ->
-        render_blocks regs render_other render_text resolve fs st bs r
+        render_blocks regs render_other render_text resolve resolve_std fs st bs r
         = (fst (render_refused regs render_other bs r), snd (render_refused regs render_other bs r), [])
         /\ snd (render_refused regs render_other bs r)
            = snd (render_refused regs render_other (filter (fun b => negb (is_include b)) bs) r)
@@ -70,7 +70,7 @@ Theorem C20_include_refuses_before_io :
             = fst (render_refused regs render_other (filter (fun b => negb (is_include b)) bs) r))).
 Proof.
   split; [exact include_refuses|]. split; [vm_compute; repeat split; reflexivity|].
-  intros regs render_other render_text resolve fs st bs r H. split; [|split].
+  intros regs render_other render_text resolve resolve_std fs st bs r H. split; [|split].
   - apply blocks_refused. exact H.
   - apply refused_registries.
   - intro Ho. apply refused_nodes. exact Ho.
@@ -78,10 +78,17 @@ Qed.
 Print Assumptions C20_include_refuses_before_io.
 
 (* with file insertion enabled the file is read (the model is not vacuously silent) *)
-Theorem C20_include_reads_when_enabled : forall st name arg resolve fs,
+Theorem C20_include_reads_when_enabled : forall st name arg resolve resolve_std fs,
   file_insertion_enabled st = true ->
-  In (FsRead (resolve arg)) (snd (include_run_prefix st name arg resolve fs)).
-Proof. exact include_reads_when_enabled. Qed.
+  In (FsRead (include_path arg resolve resolve_std))
+     (snd (include_run_prefix st name arg resolve resolve_std fs))
+  /\ (is_standard_arg arg = true -> include_path arg resolve resolve_std = resolve_std (standard_inner arg))
+  /\ (is_standard_arg arg = false -> include_path arg resolve resolve_std = resolve arg).
+Proof.
+  intros st name arg resolve resolve_std fs H. split.
+  - apply include_reads_when_enabled. exact H.
+  - apply include_path_forms.
+Qed.
 Print Assumptions C20_include_reads_when_enabled.
 
 (* non-vacuity: a tree with html and latex raw nodes at two depths *)
